@@ -59,32 +59,33 @@ CHECKS["C17"] = ("model_checking",
                  "type. Values are classes per window (not all 2^n values); 48/64/128-bit fields use boundary windows only.", "4/C17")
 
 CHECKS["C14"] = ("model_checking",
-                 "TLC exhaustive interleavings of Xid.tla (split read/write variant refuted); id sequences drawn by 2-64 goroutines under "
-                 "the Go race detector validated by TLC against the abstract Draw action (pairwise distinct)",
+                 "TLC exhaustive interleavings of Xid.tla (split read/write variant refuted) and a TLAPS proof of distinctness for any number of drawers "
+                 "and draws (XidProof.tla); id sequences drawn by 2-64 goroutines under the Go race detector validated by TLC against the abstract "
+                 "Draw action (pairwise distinct); cross-talk corpus (TLC-generated scenarios) processed sequentially vs concurrently out of reused receive buffers, judged by TLC",
                  "Xid.tla models the shared counter; TLC explores all interleavings of 3 drawers and proves Distinct for the atomic draw and "
                  "refutes it for a split read/write (the invariant is not vacuous). On the code, 2-64 goroutines draw ids through all 14 "
                  "constructors that embed a generated header, under the race detector; TLC judges the recorded per-goroutine sequences "
                  "(pairwise distinct; race reports counted).",
-                 "Trusted: TLC, Json, the Go race detector; real schedules are stress-sampled, not enumerated. The cross-talk clause "
-                 "(concurrent build/encode/parse equals sequential) is decided on the shared scenario corpus once it exists; until then "
-                 "only the id and race clauses are exercised.", "4/C14")
+                 "Trusted: TLC, TLAPS (SMT / Zenon / Isabelle back ends), Json, the Go race detector; real schedules are stress-sampled, not enumerated. "
+                 "The cross-talk clause compares every concurrent (and reverse-order) observation of ~500 independent TLC-generated scenarios with the "
+                 "sequential one; goroutines parse out of reused receive buffers and project a value only after the next frame has arrived.", "4/C14")
 CHECKS["C10"] = ("model_checking",
                  "TLC exhaustive model checking of Stream.tla (reader / parsers / consumer / failure interleavings); schedules simulated from "
                  "the spec replayed on the real MessageStream through a scripted conn + gating parser; TLC trace validation of every "
-                 "recorded event log against StreamExt.tla",
+                 "recorded event log against StreamExt.tla; refinement Stream => StreamExt checked by TLC (StreamRefine.tla)",
                  "Stream.tla mirrors util/stream.go one action per channel operation; TLC checks DeliveredIntact, NoDupNoInvent, NeverAhead, "
                  "AllDeliveredAtQuiescence, ErrorAtMostOnce, ErrorIffFailed, PoolConservation and liveness on small pools for every chunking "
                  "and failure point, and refutes the aliasing variant. The same spec simulated with the real constants produces coarse "
                  "schedules that the rig imposes on the real stream; free-running and randomly scheduled executions run under -race. Every "
                  "event log is validated step by step by TLC against StreamExt.tla (the property in event form).",
                  "Trusted: TLC, Json, the rig (scripted conn, gating parser, consumer, mutex-ordered log). The rig controls goroutines only "
-                 "at Read/Parse/Recv. Refinement Stream => StreamExt is argued, not machine-checked.", "4/C10")
+                 "at Read/Parse/Recv. The refinement Stream => StreamExt is machine-checked by TLC within the model bounds (StreamRefine.tla).", "4/C10")
 CHECKS["C11"] = ("model_checking",
                  "TLC exhaustive model checking of StreamOut.tla (two-writer variant refuted); concurrent producers against a recording "
                  "connection under -race; TLC trace validation of the write log (re-framed byte stream) against StreamOutTrace.tla",
                  "StreamOut.tla: producers, Outbound channel (cap 1), single writer; TLC checks once-only, submitted-before-written, "
                  "per-producer order and eventual writing over all interleavings of 3 producers. On the code 1-32 producer goroutines submit "
-                 "xid-tagged real messages (8 B - 60 KB); the recorded Write calls are concatenated, re-framed by header length and validated "
+                 "xid-tagged real messages (8 B - 65 535 B); the recorded Write calls are concatenated, re-framed by header length and validated "
                  "by TLC event by event.",
                  "Trusted: TLC, Json, the rig. Real schedules are stress-sampled (write delays widen the races).", "4/C11")
 
@@ -92,7 +93,7 @@ CHECKS["C11"] = ("model_checking",
 _OF_NOTE = ("Trusted: my transcription of the OpenFlow 1.3.5 / nicira-ext.h / ONF bundle layouts into OFWire.tla (every disagreement with the code was "
             "triaged; one byte -- the unused table byte of the plain resubmit action -- is taken from the implementation), TLC, Json module, the "
             "reflective interpreter's name-to-constructor mapping. Enumeration is by families (one dimension exhaustive, the others minimal) with "
-            "position-tagged and boundary values, not the full product; bundle-add properties are not generated (no public way to set their data).")
+            "position-tagged and boundary values, not the full product; bundle-add properties are built through the API and also appear with data in specification-made frames.")
 for _pid, _tech, _text in (
     ("C01", "TLC-generated construction histories (OFGen.tla families incl. maximal shapes and top-down histories) replayed on the real API; TLC judge of framing (version, type code, header length = bytes = Len())",
      "OFBuilder.tla states which abstract message every sequence of constructor / field / adder calls denotes; TLC enumerates the families (every action kind and ordered pair in every action container, every match-field constructor and pairs, instruction sequences x all 5 flow-mod commands, group-mod commands x types x buckets, all simple / multipart / vendor / bundle messages, bundle-add wrapping every kind, payload sizes, maximal shapes near 65 535 bytes, and top-down histories where a container grows after it was attached); the reflective harness executes them and TLC judges version = 4, type code = TypeCode(kind), header length = bytes produced = Len()."),
@@ -101,9 +102,9 @@ for _pid, _tech, _text in (
     ("C03", "TLC-generated construction histories replayed on the real API; TLC judges bytes = Enc(tree) of OFWire.tla byte for byte (independent statement of the layouts)",
      "Enc of OFWire.tla is the OpenFlow 1.3 / Nicira layout written from the specifications; the tree of every scenario is built by OFBuilder.tla from the same constructor arguments and setter calls; position-tagged values make a swapped, shifted or truncated field visible; boundary patterns (zero, ones, top bit, low bit) sweep every field; every optional part (all 64 NAT combinations, masks on/off, conntrack zone immediate / range) and append / prepend orders are enumerated."),
     ("C06", "TLC-generated construction histories replayed on the real API; TLC judges Len() = bytes = size assigned by the grammar, and ordered disjoint occurrence of the children's standalone encodings inside the container",
-     "For every observed object (children standalone, then the container) Len() must equal the bytes produced and the size Enc(tree) assigns (so a consistently truncating size function is seen), and the standalone encodings of the watched children must occur whole, disjoint and in order inside the parent. Packet-header kinds of protocol/ are covered by the C09 corpus."),
+     "For every observed object (children standalone, then the container) Len() must equal the bytes produced and the size Enc(tree) assigns (so a consistently truncating size function is seen), and the standalone encodings of the watched children must occur whole, disjoint and in order inside the parent. Packet-header kinds of protocol/ (PktGen.tla families incl. DHCP helper constructors, short names, 16-byte IPv4 addresses) are built through the API and judged by the same predicates with EncPkt as the grammar."),
     ("C13", "TLC-generated construction histories (incl. top-down histories and bundle / vendor wrappers) with interleaved repeated Len()/MarshalBinary() observers replayed on the real API; TLC judges that all answers agree",
-     "Observer actions leave the abstract store unchanged: every scenario sizes and encodes each watched child, then the container twice (len, marshal, len, marshal), top-down histories four times; every pair of answers for the same (observer, object) must be equal, and (with C03) equal to the specification's value."),
+     "Observer actions leave the abstract store unchanged: every scenario sizes and encodes each watched child and the container repeatedly in one of six orders chosen per scenario; every other scenario and every top-down history also sizes and encodes the top-level value after each API call from its creation on; packet-header kinds are included; every pair of answers for the same (observer, object) must be equal, and (with C03) equal to the specification's value."),
 ):
     CHECKS[_pid] = ("model_checking", _tech, _text, _OF_NOTE, "4/" + _pid)
 
